@@ -137,17 +137,17 @@ fn variants_of(schema: &Value) -> Vec<(String, Value)> {
 
 /// a minimal value for a schema node: required properties only, `null` where allowed (unless `fill`), `n` for numbers and
 /// numeric strings, an account for address-like names
-fn build_value(node: &Value, defs: &Value, hint: &str, n: u128, fill: bool, depth: u32) -> Value {
+fn build_value(node: &Value, defs: &Value, hint: &str, n: u128, fill: bool, wide_str: bool, depth: u32) -> Value {
     if depth > 8 {
         return Value::Null;
     }
     if let Some(r) = node.get("$ref").and_then(|r| r.as_str()) {
         let name = r.rsplit('/').next().unwrap_or("");
-        return build_value(&defs[name], defs, name, n, fill, depth + 1);
+        return build_value(&defs[name], defs, name, n, fill, wide_str, depth + 1);
     }
     if let Some(a) = node.get("allOf").and_then(|a| a.as_array()) {
         if let Some(f) = a.first() {
-            return build_value(f, defs, hint, n, fill, depth + 1);
+            return build_value(f, defs, hint, n, fill, wide_str, depth + 1);
         }
     }
     for key in ["anyOf", "oneOf"] {
@@ -159,10 +159,10 @@ fn build_value(node: &Value, defs: &Value, hint: &str, n: u128, fill: bool, dept
             if let Some(f) = a.iter().find(|x| x.get("type").and_then(|t| t.as_str()) != Some("null")) {
                 if let Some(req) = f.get("required").and_then(|r| r.as_array()).and_then(|r| r.first()).and_then(|r| r.as_str()) {
                     let mut m = serde_json::Map::new();
-                    m.insert(req.to_string(), build_value(&f["properties"][req], defs, req, n, fill, depth + 1));
+                    m.insert(req.to_string(), build_value(&f["properties"][req], defs, req, n, fill, wide_str, depth + 1));
                     return Value::Object(m);
                 }
-                return build_value(f, defs, hint, n, fill, depth + 1);
+                return build_value(f, defs, hint, n, fill, wide_str, depth + 1);
             }
         }
     }
@@ -185,7 +185,7 @@ fn build_value(node: &Value, defs: &Value, hint: &str, n: u128, fill: bool, dept
                 node.get("required").and_then(|r| r.as_array()).map(|r| r.iter().filter_map(|x| x.as_str().map(String::from)).collect()).unwrap_or_default()
             };
             for r in names {
-                m.insert(r.clone(), build_value(&node["properties"][&r], defs, &r, n, fill, depth + 1));
+                m.insert(r.clone(), build_value(&node["properties"][&r], defs, &r, n, fill, wide_str, depth + 1));
             }
             Value::Object(m)
         }
@@ -205,7 +205,11 @@ fn build_value(node: &Value, defs: &Value, hint: &str, n: u128, fill: bool, dept
         }
         "integer" | "number" => {
             let small = node.get("format").and_then(|f| f.as_str()).map(|f| ["uint8", "int8", "uint16", "int16", "uint32", "int32"].contains(&f)).unwrap_or(false);
-            if small {
+            // serde-json-wasm reads 128-bit integers from JSON STRINGS although the schema says `integer`
+            let wide = node.get("format").and_then(|f| f.as_str()).map(|f| f.contains("128")).unwrap_or(false);
+            if wide && wide_str {
+                Value::String(n.to_string())
+            } else if small {
                 json!((n % 40 + 1) as u64)
             } else {
                 json!(n.min(u64::MAX as u128) as u64)
@@ -217,13 +221,13 @@ fn build_value(node: &Value, defs: &Value, hint: &str, n: u128, fill: bool, dept
     }
 }
 
-fn build_variant(schema: &Value, name: &str, node: &Value, n: u128, fill: bool) -> Value {
+fn build_variant(schema: &Value, name: &str, node: &Value, n: u128, fill: bool, wide_str: bool) -> Value {
     if node.is_null() {
         return Value::String(name.to_string());
     }
     let defs = schema.get("definitions").cloned().unwrap_or(Value::Null);
     let mut m = serde_json::Map::new();
-    m.insert(name.to_string(), build_value(node, &defs, name, n, fill, 0));
+    m.insert(name.to_string(), build_value(node, &defs, name, n, fill, wide_str, 0));
     Value::Object(m)
 }
 
@@ -713,12 +717,14 @@ impl S {
         let big = self.g_pub.map(|p| p.1).unwrap_or(0).saturating_add(1_000_003);
         for (name, node) in vars {
             let known = OTHER_TODAY.contains(&name.as_str());
-            let mut shapes: Vec<Value> = vec![build_variant(&schema, &name, &node, 1, false)];
+            let mut shapes: Vec<Value> = vec![build_variant(&schema, &name, &node, 1, false, true)];
             if !known {
-                shapes.push(build_variant(&schema, &name, &node, big, false));
-                shapes.push(build_variant(&schema, &name, &node, 1, true));
-                shapes.push(build_variant(&schema, &name, &node, big, true));
-                shapes.dedup();
+                for (n, fill, ws) in [(big, false, true), (1, true, true), (big, true, true), (1, false, false), (big, false, false), (1, true, false), (big, true, false)] {
+                    let v = build_variant(&schema, &name, &node, n, fill, ws);
+                    if !shapes.contains(&v) {
+                        shapes.push(v);
+                    }
+                }
             }
             for (sender, sname) in [(STRANGER, "str"), (ADMIN, "adm")] {
                 let mut any_ok = false;
@@ -1596,7 +1602,7 @@ fn main() {
     boundary_cases(&mut ses, &mut sut, &optin);
 
     // ------------------------------------------------------------------ 1. random structured histories
-    let n_cases = ses.scale(810, 21600);
+    let n_cases = ses.scale(810, 18000);
     for ci in 0..n_cases {
         let kind = ALL_MINTERS[(ci % 9) as usize];
         let k = kind.idx();
@@ -1978,6 +1984,14 @@ fn main() {
                     if wl_cur {
                         ses.mark(tag("tiered-attached:charging"));
                     }
+                }
+            }
+            if opw == "ust" && started_now && rng.chance(1, 2) {
+                // "once the mint has started": whatever became of the start time, a raise must still be refused
+                let o2 = step(&mut ses, &mut sut, &format!("ump by=10 paid=0 p={}", pubp.1 + 1 + rng.below(1000) as u128));
+                ses.mark(tag(&format!("ump-after-ust:{}:{}", &o[..2.min(o.len())], &o2[..2.min(o2.len())])));
+                if o2.starts_with("ok") || o2.starts_with("err") {
+                    out = o2;
                 }
             }
             if opw != "mint" || rng.chance(1, 2) {
